@@ -264,8 +264,56 @@ Proof.
   pose proof (step_srel _ _ _ _ _ Hth (t1_pc _ T) H) as R.
   pose proof (srel_frame _ _ _ _ _ R Hth) as F. clear H.
   destruct T as [Tpc Tpar Tcb Tle Tco Tneed].
-  Time inversion R; subst; clear R.
-  Time all: try (eapply Inv1_update; [exact I|exact Hth|apply get_same; gts; congruence|exact F| |]; clear F).
-  Time all: try (left; split; reflexivity).
-  Time all: try solve [t1solve].
+  assert (N0 : lockpath (main th) = false -> nclear (cbs th) = 0%nat).
+  { intros L. destruct (nclear (cbs th)) as [|[|n]] eqn:E; [reflexivity| |lia].
+    destruct (Tco eq_refl). congruence. }
+  inversion R; subst; clear R.
+  all: try solve [eapply Inv1_update;
+    [exact I|exact Hth|apply get_same; gts; congruence|exact F|clear F; t1solve|left; split; reflexivity]].
+  - (* cas1_ok *)
+    match goal with Hm : main th = _ |- _ => rewrite Hm in * end. cbn in Tpar, Tpc.
+    assert (Hof : own th = false) by (eapply i1_even; eauto).
+    assert (N : nclear (cbs th) = 0%nat).
+    { destruct (nclear (cbs th)) as [|[|n]] eqn:E; [reflexivity| |lia]. destruct (Tco eq_refl). congruence. }
+    eapply Inv1_update; [exact I|exact Hth|apply get_same; gts; congruence|exact F| |].
+    + split; gts; cbn; auto; try lia; try (destruct k; cbn in *; auto; fail);
+        intros X; rewrite N in X; discriminate.
+    + right; left. gts. cbn. split; [reflexivity|split; [exact Tpar|apply odd_plus1; exact Tpar]].
+  - (* cas2_ok *)
+    eapply Inv1_update; [exact I|exact Hth|apply get_same; gts; congruence|exact F|clear F; t1solve|].
+    left. gts. split; [reflexivity|apply odd_plus2].
+  - (* unl *)
+    match goal with Hm : main th = _, U : urel _ _ _ _ _ _ _ |- _ =>
+      eapply (Inv1_urel _ _ _ _ _ _ _ _ I Hth U); [|reflexivity| |exact F];
+      [|intros P; apply Tneed; rewrite Hm; exact P]; clear F; inv U end.
+    all: try solve [t1solve].
+  - (* sigpush *)
+    eapply Inv1_update; [exact I|exact Hth|apply get_same; rewrite get_other by auto; congruence|exact F
+                        |clear F; t1solve|left; split; reflexivity].
+  - (* feread_wait *)
+    match goal with Hm : main th = _ |- _ => rewrite Hm in * end. cbn in Tpc, Tneed, N0.
+    destruct (valid_st_idx _ Tpc) as [Hlt _].
+    eapply Inv1_update; [exact I|exact Hth|apply get_same; gts; congruence|exact F| |left; split; reflexivity].
+    clear F. split; gts; rewrite ?nclear_app, ?nbadcb_app; cbn; rewrite ?Hlt, ?N0; cbn; auto; try lia.
+    Show.
+  - (* fewrite *)
+    match goal with Hm : main th = _ |- _ => rewrite Hm in * end. cbn in Tpc, Tneed, N0.
+    destruct (valid_st_idx _ Tpc) as [Hlt _].
+    eapply Inv1_update; [exact I|exact Hth|apply get_same; gts; congruence|exact F| |left; split; reflexivity].
+    clear F. split; gts; cbn; rewrite ?Hlt; auto.
+    intros X. destruct (Tco X). discriminate.
+  - (* cbenq *)
+    match goal with Hc : nth_error (cbs th) _ = Some _ |- _ =>
+      pose proof (nbadcb_nth _ _ _ Hc Tcb) as Hfe;
+      pose proof (nclear_upd _ _ _ (CbUnl (URead 0)) Hc) as Hu;
+      pose proof (nclear_remove _ _ _ Hc) as Hr;
+      pose proof (nbadcb_upd _ _ _ (CbUnl (URead 0)) Hc) as Hbu;
+      pose proof (nbadcb_remove _ _ _ Hc) as Hbr end.
+    eapply Inv1_update; [exact I|exact Hth|apply get_same; gts; congruence|exact F| |left; gts; split; reflexivity].
+    clear F. cbn in Hu, Hr, Hbu, Hbr. rewrite Hfe in *. cbn in Hbu, Hbr.
+    destruct unl; cbn in Hu, Hr; split; gts; auto; try lia.
+    + intros X. apply Tco. lia.
+    + intros X. apply Tco. lia.
+  - (* cbunl *)
+    Show.
 Abort.
